@@ -521,15 +521,33 @@ def main():
     # bounded stand-ins registered for clauses the verifiers cannot reach (e.g. int/float comparison arms):
     # enumerated on the real code, labelled bounded, never counted as discharged
     bounded_runs = []
-    for oname, what in cfg.get('bounded', []):
+    bounded_list = list(cfg.get('bounded', []))
+    seeds = [seed]
+    if tier == 'thorough':
+        # thorough tier: besides the proof, every replay oracle of the property is run as a supplementary
+        # bounded exploration of the real code, with several seeds (never counted as discharged)
+        for oname in sorted(set(cfg.get('oracles', {}).values())):
+            if oname not in [b[0] for b in bounded_list]:
+                bounded_list.append((oname, 'supplementary exploration of the real code (thorough tier)'))
+        seeds = [seed, seed + 1, seed + 2, seed + 3, seed + 4]
+    for oname, what in [(o, w) for (o, w) in bounded_list for _ in [0]]:
         binp, err = build_replay(a.repo)
         if not binp:
             undecided.append('cannot build replay crate for bounded stand-in: ' + err[-200:])
             break
-        try:
-            wit, summ = find_witness(binp, oname, seed)
-        except subprocess.TimeoutExpired:
-            wit, summ = None, None
+        wit, summ = None, None
+        tot_cases = 0
+        for sd in seeds:
+            try:
+                w1, s1 = find_witness(binp, oname, sd)
+            except subprocess.TimeoutExpired:
+                w1, s1 = None, None
+            if s1:
+                tot_cases += s1.get('cases') or 0
+                summ = dict(s1, cases=tot_cases, seeds=seeds)
+            if w1:
+                wit = w1
+                break
         bounded_runs.append({'oracle': oname, 'what': what, 'cases': (summ or {}).get('cases'), 'failures': (summ or {}).get('failures'),
                              'skipped_outside_claim': (summ or {}).get('skipped_outside_claim'), 'sample': (summ or {}).get('sample'),
                              'result': 'failing input found' if wit else 'no failing input (bounded, not counted)'})
